@@ -62,6 +62,55 @@ def check_truth(sc, out_text, samples=None, only_snvs=False, prephased_input=Fal
     return None, n_phased
 
 
+def diagnose_read_ends(sc, d):
+    """Attribution of a wrong phase set to known finding F23, by the call site that fails: the real ReadSetReader (with reference) is run once more on the
+    scenario; returns the list of wrongly recorded alleles iff there is at least one and EVERY one of them is of this shape: the read carries ALT, REF was
+    recorded, and the read's alignment ends inside the variant's REF span without containing the whole ALT allele (an MNP cut short, an insertion's anchor
+    base as the last aligned base).  Any other wrong allele -- or none at all -- returns None and the failure stays a violation."""
+    from whatshap.core import NumericSampleIds
+    from whatshap.variants import ReadSetReader
+    from whatshap.vcf import VcfReader
+    sub = os.path.join(d, "diag")
+    os.makedirs(sub, exist_ok=True)
+    paths = BAM.materialize(sc, sub)
+    vcf = os.path.join(sub, "v.vcf")
+    with open(vcf, "w") as f:
+        f.write(BAM.vcf_text(sc))
+    tables = {t.chromosome: t for t in VcfReader(vcf)}
+    reader = ReadSetReader([paths["bam"]], paths["fasta"], NumericSampleIds())
+    by_name = {}
+    for rd in sc["reads"]:
+        by_name.setdefault(rd["name"], []).append(rd)
+    wrong = []
+    try:
+        for c in sc["contigs"]:
+            if c["name"] not in tables:
+                continue
+            index = {v["pos"]: i for i, v in enumerate(c["variants"])}
+            for s in sc["samples"]:
+                haps = sc["truth"][s][c["name"]]
+                for read in reader.read(c["name"], tables[c["name"]].variants, s, c["seq"]):
+                    rds = by_name.get(read.name, [])
+                    if len(rds) != 1:
+                        return None          # mates / clashing names: not attributable here
+                    rd = rds[0]
+                    blocks = BAM.aligned_blocks(rd["start"], [tuple(x) for x in rd["cigar"]])
+                    for v in read:
+                        i = index.get(v.position)
+                        if i is None or haps[rd["hap"]][i] == v.allele:
+                            continue
+                        var = c["variants"][i]
+                        vs, ve = var["pos"], var["pos"] + len(var["ref"])
+                        be = blocks[-1][1]
+                        cut = vs < be <= ve and not (var["kind"] in ("snv", "mnp") and be == ve)
+                        if not (haps[rd["hap"]][i] == 1 and v.allele == 0 and cut):
+                            return None
+                        wrong.append("%s ends at %d inside %s:%d %s>%s, carries ALT, REF recorded" % (read.name, be, c["name"], vs + 1, var["ref"], var["alt"]))
+    finally:
+        reader.close()
+    return wrong or None
+
+
 def r_pile(i):
     return [0, 0, 4, 0, 8, 0][i % 6] if i % 6 in (2, 4) else 0
 
@@ -143,6 +192,10 @@ class ErrorFree(BCheck):
             if res["error"]:
                 return dict(expected="run succeeds", observed=res["error"], traceback=res.get("traceback"))
             fail, n = check_truth(sc, res["out"], samples=samples, only_snvs=inp["only_snvs"], prephased_input=(inp["seed"] % 5 == 0))
+            if fail and not inp["noref"] and "whole-set swap" in str(fail.get("expected")):
+                cause = diagnose_read_ends(sc, d)
+                if cause:
+                    fail = dict(fail, cause="read-ends-inside-ALT-allele", reads=cause[:5])
             return fail
         finally:
             shutil.rmtree(d, ignore_errors=True)
